@@ -2,7 +2,10 @@
 (* Trace validation for property C13.  One line of the log = one public call                     *)
 (*   op "slice"   : df_slice(x, lb, ub, openclose) on a pd.Series (first column of o.s) and on a  *)
 (*                  pd.DataFrame (all columns of o.s); o.mode / o.B say how bounds are compared;  *)
-(*   op "stitch"  : df_slice([series..], ub = [bounds..], n = o.n);                               *)
+(*   op "session" : consecutive calls df_slice(xs, ub = bounds, n = call.n) on the SAME two list   *)
+(*                  objects xs (series o.ss) and bounds (o.ubs); per call the result and the two   *)
+(*                  lists read again afterwards (ubs_after; ss_after = which of the original       *)
+(*                  series sits at each position, unchanged);                                      *)
 (*   op "unstitch": df_unslice(F, bounds) on a frame F that df_slice produced; out.series are the *)
 (*                  recovered series in the order of their bounds out.keys.                       *)
 (* Timestamps and bounds are integers on the time grid the driver chose, 0 = None.               *)
@@ -22,15 +25,21 @@ SliceVerdict(o) ==
     IN  IF ~WellFormed(o.s) \/ Len(o.runs) = 0 THEN "malformed_observation"
         ELSE IF bad # <<>> THEN RunV(o.runs[bad[1]]) ELSE ""
 
-StitchVerdict(o) ==
-    LET ok == /\ Len(o.ss) = Len(o.ubs) /\ Len(o.ss) >= 1 /\ o.n \in 1..Len(o.ss)
+\* Every call of a session answers for the lists as the caller wrote them and leaves them as they are:
+\* a call that re-orders or rewrites its arguments changes what the caller's next call means.
+SessionVerdict(o) ==
+    LET nS == Len(o.ss)
+        ok == /\ nS = Len(o.ubs) /\ nS >= 1 /\ Len(o.calls) >= 1
               /\ (Increasing(o.ubs) \/ Decreasing(o.ubs))
-              /\ \A i \in 1..Len(o.ss) : WellFormed(o.ss[i]) /\ NCols(o.ss[i]) = 1
-    IN  IF ~ok THEN "malformed_observation"
-        ELSE IF ~IsFrame(o.out) THEN "stitch_raised"
-        ELSE LET want == Stitch(o.ss, o.ubs, o.n) IN
-             IF o.out.rows # want.rows THEN "stitch_rows"
-             ELSE IF o.out.cols # want.cols THEN "stitch_values" ELSE ""
+              /\ \A i \in 1..nS : WellFormed(o.ss[i]) /\ NCols(o.ss[i]) = 1
+              /\ \A k \in 1..Len(o.calls) : o.calls[k].n \in 1..nS
+        CallV(cl) == IF ~IsFrame(cl.out) THEN "stitch_raised"
+                     ELSE LET want == Stitch(o.ss, o.ubs, cl.n) IN
+                          IF cl.out.rows # want.rows THEN "stitch_rows"
+                          ELSE IF cl.out.cols # want.cols THEN "stitch_values"
+                          ELSE IF cl.ubs_after # o.ubs \/ cl.ss_after # Idx(nS) THEN "argument_changed" ELSE ""
+        bad == SelectSeq(Idx(Len(o.calls)), LAMBDA k : CallV(o.calls[k]) # "")
+    IN  IF ~ok THEN "malformed_observation" ELSE IF bad # <<>> THEN CallV(o.calls[bad[1]]) ELSE ""
 
 UnstitchVerdict(o) ==
     IF ~(Increasing(o.ubs) /\ NCols(o.F) = o.n) THEN "malformed_observation"
@@ -40,7 +49,7 @@ UnstitchVerdict(o) ==
     ELSE IF ~IsUnstitch(o.out.series, o.F, o.ubs, o.n) THEN "unstitch_roundtrip" ELSE ""
 
 Verdict(o) == CASE o.op = "slice"    -> SliceVerdict(o)
-                [] o.op = "stitch"   -> StitchVerdict(o)
+                [] o.op = "session"  -> SessionVerdict(o)
                 [] o.op = "unstitch" -> UnstitchVerdict(o)
                 [] OTHER -> "unknown_op"
 
